@@ -1,6 +1,7 @@
 package main
 
 import (
+	"fmt"
 	"strings"
 	"sync"
 	"time"
@@ -195,6 +196,11 @@ func verifPool() []string {
 	heads := []string{"1", "0", "01", "10", "9", "00000000000000000000001", "99999999999999999999"}
 	tails := []string{"", ".0", ".1", "a", "+", "~", "~~", "~a", "a0", "a1", ".a", "+a", "-1", ".10", ".9", "a~", "+1", "~1", ".01", "A", "a+", "+~"}
 	revs := []string{"", "-0", "-1", "-1~", "-a", "-1+b"}
+	if verifThorough {
+		heads = append(heads, "2", "11", "009", "100")
+		tails = append(tails, "b", "Z", ".a1", "~~a", "+b1", ".0a", "a.0", "~+", ".~", "a10", "a2", ".+", "++")
+		revs = append(revs, "-01", "-1a", "-~", "-1.1")
+	}
 	var out []string
 	for _, h := range heads {
 		for _, t := range tails {
@@ -364,6 +370,11 @@ func verifPool() []string {
 	heads := []string{"1", "0", "01", "10", "9", "00000000000000000000001", "99999999999999999999"}
 	tails := []string{"", ".0", ".1", "a", "~", "^", "~a", "^a", "a1", ".a", "..1", "_1", "+", "~~", "^1", "~1", ".01", ".10", ".1a", ".a1", "~^", "^~", "A", ".b"}
 	rels := []string{"", "-1", "-0", "-1.el8", "-1~rc", "-1^git"}
+	if verifThorough {
+		heads = append(heads, "2", "11", "009", "100")
+		tails = append(tails, "b", "Z", "a10", "a2", "~~a", "^^", "^a1", "~a1", "_a", "+1", ".0a", "a.0", "..", ".~", ".^", "a^", "a~")
+		rels = append(rels, "-01", "-1a", "-a", "-1.1")
+	}
 	var out []string
 	for _, h := range heads {
 		for _, t := range tails {
@@ -473,6 +484,10 @@ func verifRef(a, b string) (int, string) {
 func verifPool() []string {
 	heads := []string{"1", "0", "2", "1.0", "1.2", "1.10", "0.9", "1.0.0", "1.2.3", "2.0.0", "1.0.10", "1.0.0.0", "1.2.0.1"}
 	tails := []string{"", ".rc1", ".rc2", ".rc10", ".beta.2", ".beta", "-alpha", "-alpha.1", ".a4", ".a", ".b", ".pre", ".0", ".0.a", ".a.0", ".1", ".10", ".rc.1", ".rc1.0", "-rc.2"}
+	if verifThorough {
+		heads = append(heads, "3", "1.1", "1.0.1", "10", "1.0.0.1", "0.0.1", "2.10", "1.2.10")
+		tails = append(tails, ".rc", ".rc0", ".alpha", ".alpha1", ".alpha2", "-beta", "-beta.2", "-rc1", "-rc.10", ".z", ".pre1", ".pre.1", ".2", ".0.0", ".a.b", ".b.a", ".a1.b2", "-a", ".rc2.1")
+	}
 	var out []string
 	for _, h := range heads {
 		for _, t := range tails {
@@ -726,6 +741,10 @@ func verifRef(a, b string) (int, string) {
 func verifPool() []string {
 	stems := []string{"1", "1.0", "1.1", "1.0.0", "1.0.1", "2", "1.10"}
 	quals := []string{"alpha", "beta", "milestone", "rc", "cr", "snapshot", "ga", "final", "release", "sp", "foo", "xyz", "dev", "zeta"}
+	if verifThorough {
+		stems = append(stems, "1.0.0.0", "0.1", "1.2.3", "10.0")
+		quals = append(quals, "preview", "build", "abc")
+	}
 	var out []string
 	for _, s := range stems {
 		out = append(out, s, s+"-1", s+"-2", s+"-10", s+".0")
@@ -755,6 +774,7 @@ func verifPool() []string {
 
 func (r refOrder) source() string {
 	src := strings.ReplaceAll(refOrderHarness, "package PKG", "package "+r.pkg)
+	src = strings.Replace(src, "REFCODE", fmt.Sprintf("const verifThorough = %v\n\nREFCODE", harnessThorough), 1)
 	src = strings.ReplaceAll(src, "REFNAME", r.refName)
 	return strings.Replace(src, "REFCODE", r.code, 1)
 }
